@@ -435,6 +435,14 @@ def describe_parse(ctx, an):
                 pos = None
             else:
                 pos = None
+    # what follows a nested parse (a name, a character-string) is read at the cursor that parse left - not at an offset
+    # computed some other way (e.g. start + name.len(), which is the uncompressed length: wrong as soon as the name ends in a
+    # compression pointer)
+    for prev, e in zip(top, top[1:]):
+        if prev["kind"] == "sub" and e["kind"] in ("int", "raw") and isinstance(prev.get("bi"), int) and str(prev.get("base", "")).startswith("(*_2)"):
+            want = "(*_2)@bb%d" % prev["bi"]
+            if e["base"] != want and str(e["base"]).startswith("?"):
+                gaps.append("%s reads at %s, not at the cursor left by the preceding %s" % (item(e), str(e["base"])[1:60], prev.get("type", "element")))
     for base, es in reps:
         seq.append("rep{" + " ".join(item(e).split(":")[0] for e in es) + "}")
     return seq, gaps, top, reps
